@@ -137,6 +137,10 @@ def check_record(args):
 
 def solved(rec, ground, rnd, f, unit, k, out):
     from mininec.mininec import Excitation
+    # (two wires between the same two points make the system singular: such structures are not solved)
+    pairs = [frozenset((o['p1'], o['p2'])) for o in rec['input']]
+    if len(set(pairs)) != len(pairs):
+        return
     m, geo = L.build_pair(rec, rnd, ground, f, unit, 0.001)
     N = len(m.pulses)
     a, b = rnd.sample(range(N), 2)
@@ -148,7 +152,7 @@ def solved(rec, ground, rnd, f, unit, k, out):
     except np.linalg.LinAlgError:
         return
     I = np.array(m.current)
-    if not np.isfinite(I).all():
+    if not np.isfinite(I).all() or np.linalg.cond(m.Z) > 1e7:
         return
     pin = sum(0.5 * (v * np.conj(I[q])).real for q, v in volts.items())
     parts = [0.5 * (v * np.conj(I[q])).real for q, v in volts.items()]
